@@ -605,6 +605,9 @@ fn seq_part(ctx: &Ctx, res: &mut PartResult, depth: usize, aggressive: bool, as_
         // reference model
         let (mut ci_pend, mut ci_idle) = (0u64, false);
         let (mut ca_cur, mut ca_last, mut ca_idle, mut ca_abs) = (0u64, 0u64, false, false);
+        // whether a zero is sent for a counter that has never changed since it was registered is not specified by the
+        // property ("a counter that STOPS changing is sent as zero exactly once"): such zeros are neither demanded nor forbidden
+        let (mut ci_ever, mut ca_ever) = (false, false);
         let mut gv = 0.0f64;
         let mut hv: Vec<f64> = Vec::new();
         let mut next_abs = 100u64;
@@ -669,8 +672,9 @@ fn seq_part(ctx: &Ctx, res: &mut PartResult, depth: usize, aggressive: bool, as_
                     if ci_pend > 0 {
                         want.push(("ci".into(), 'c', vec![ci_pend.to_string()]));
                         ci_idle = false;
+                        ci_ever = true;
                         ci_pend = 0;
-                    } else if !ci_idle {
+                    } else if ci_ever && !ci_idle {
                         want.push(("ci".into(), 'c', vec!["0".into()]));
                         ci_idle = true;
                     }
@@ -679,7 +683,8 @@ fn seq_part(ctx: &Ctx, res: &mut PartResult, depth: usize, aggressive: bool, as_
                     if d > 0 {
                         want.push(("ca".into(), 'c', vec![d.to_string()]));
                         ca_idle = false;
-                    } else if !ca_idle {
+                        ca_ever = true;
+                    } else if ca_ever && !ca_idle {
                         want.push(("ca".into(), 'c', vec!["0".into()]));
                         ca_idle = true;
                     }
@@ -689,6 +694,7 @@ fn seq_part(ctx: &Ctx, res: &mut PartResult, depth: usize, aggressive: bool, as_
                         hv.clear();
                     }
                     let mut got: Vec<(String, char, Vec<String>)> = msgs.iter().map(|m| (m.name.clone(), m.ty, m.values.clone())).collect();
+                    got.retain(|g| !(g.1 == 'c' && g.2 == ["0"] && ((g.0 == "ci" && !ci_ever) || (g.0 == "ca" && !ca_ever))));
                     // numeric comparison for the gauge (formatting is C09's business)
                     for gt in got.iter_mut().filter(|x| x.1 == 'g') {
                         if let Ok(v) = gt.2[0].parse::<f64>() {
